@@ -235,7 +235,31 @@ def vec_rule(rep, prog, cfg):
         not any(n.rsplit("::", 1)[-1] in ("rev", "next_back", "rfold", "last") for n in names)
     rep.check(ok, rule, cfg + "/command_list in order", b.loc(b.span),
               "Vec<C>::command_list does not map Command::command over the vector in order into CommandList::new + extend")
-    # None iff empty: the first next()? produces the None
+    # None iff empty, decided on the outcome of the first next() (A13): with a first command the function can only return
+    # Some(the list built from it); without one it builds nothing
+    from ..cfg import VariantReach
+    firsts = [(bb, t) for bb, t in b.calls() if NEXT in callee_names(t)]
+    if len(firsts) >= 1:
+        vr = VariantReach(b)
+        fbb, ft = firsts[0]
+        some_blocks = vr.blocks_after_def(fbb, ft["dest"]["l"], ("Some",))
+        none_blocks = vr.blocks_after_def(fbb, ft["dest"]["l"], ("None",))
+
+        def ret_aggs(blocks, variant):
+            return [bb for bb in sorted(blocks) for st in b.blocks[bb]["s"] if st["k"] == "assign" and st["place"]["l"] == 0 and not st["place"]["p"]
+                    and st["rv"]["k"] == "agg" and st["rv"].get("variant") == variant]
+        news = {bb for bb, t in b.calls() if RAWLIST + "new" in callee_names(t)}
+        residual_none = [bb for bb in some_blocks if b.blocks[bb]["t"]["k"] == "call" and
+                         "core::ops::try_trait::FromResidual::from_residual" in callee_names(b.blocks[bb]["t"])]
+        ok2 = bool(ret_aggs(some_blocks, "Some")) and not ret_aggs(some_blocks, "None") and not residual_none and not (none_blocks & news) \
+            and bool(some_blocks & news)
+        rep.check(ok2, rule, cfg + "/a non-empty vector yields Some(list)", b.loc(b.span),
+                  "Vec<C>::command_list: with a first command present the function %s; without one it %s — a non-empty vector must give Some(list of "
+                  "its commands) and only an empty one None (None makes the client send nothing and answer with an empty result)"
+                  % ("can return None" if ret_aggs(some_blocks, "None") or residual_none or not ret_aggs(some_blocks, "Some") else "returns Some",
+                     "still builds a list" if none_blocks & news else "builds nothing"))
+    else:
+        rep.fail(rule, cfg + "/a non-empty vector yields Some(list)", b.loc(b.span), "no first next() found in Vec<C>::command_list (idiom unknown: failing closed)")
     fl = Flow(b)
     leaves, _ = fl.sources([0], through_call=through)
     rep.check(any(x[0] == "call" and NEXT in callee_names(b.blocks[x[1]]["t"]) for x in leaves) or
